@@ -2375,7 +2375,9 @@ class sptensor:
             assert False, "Number of subscripts and number of values do not match!"
 
         # Remove duplicates and print warning if any duplicates were removed
-        newsubs, idx = np.unique(newsubs, axis=0, return_index=True)
+        # (the last assignment to a repeated subscript wins, as for dense tensors)
+        newsubs, idx = np.unique(newsubs[::-1], axis=0, return_index=True)
+        idx = newnnz - 1 - idx
         if newsubs.shape[0] != newnnz:
             warnings.warn("Duplicate assignments discarded")
 
